@@ -126,8 +126,11 @@ def steady_state_transport_solver(
         logger.info("Setting both equal.")
         nlx, nly = nxe, nye
 
-    # Deltas for truncated Fourier transform
+    # Deltas for truncated Fourier transform: modes removed below (dlx, dly)
+    # and above (dhx, dhy) the retained band of the centred spectrum; they
+    # differ by one when the padded size is odd and the mode count even
     dlx, dly = (nxe - nlx) // 2, (nye - nly) // 2
+    dhx, dhy = nxe - nlx - dlx, nye - nly - dly
 
     if footprint:
         # Fourier trafo of delta distribution
@@ -139,7 +142,7 @@ def steady_state_transport_solver(
         fftq0 = fftshift(fftq0)
 
         # truncate fourier series by removing higher-frequency components
-        tfftq0 = fftq0[dly : nye - dly, dlx : nxe - dlx]
+        tfftq0 = fftq0[dly : nye - dhy, dlx : nxe - dhx]
 
         # unshift
         tfftq0 = ifftshift(tfftq0)
@@ -271,10 +274,10 @@ def steady_state_transport_solver(
 
     # untruncate
     fftp = np.pad(
-        tfftp, ((0, 0), (dly, dly), (dlx, dlx)), mode="constant", constant_values=0.0
+        tfftp, ((0, 0), (dly, dhy), (dlx, dhx)), mode="constant", constant_values=0.0
     )
     fftq = np.pad(
-        tfftq, ((0, 0), (dly, dly), (dlx, dlx)), mode="constant", constant_values=0.0
+        tfftq, ((0, 0), (dly, dhy), (dlx, dhx)), mode="constant", constant_values=0.0
     )
 
     # unshift
